@@ -828,7 +828,7 @@ class Interp:
                 return ERR(argv[0])
             # value-preserving std conversions passed as function items (`.map(str::to_owned)`, `.map(<[_]>::to_vec)`, `.map(Clone::clone)`)
             last = f[1].split('::')[-1].split('<')[0]
-            if len(argv) == 1 and last in ('to_owned', 'to_vec', 'clone', 'cloned', 'to_string', 'into', 'from', 'as_ref', 'borrow', 'as_str', 'as_slice', 'deref') \
+            if len(argv) == 1 and last in ('to_owned', 'to_vec', 'clone', 'cloned', 'as_ref', 'borrow', 'as_str', 'as_slice', 'deref') \
                     and any(k_ in f[1] for k_ in ('str', 'slice', 'ToOwned', 'Clone', 'String', 'Vec', 'convert', 'Borrow', 'Deref', 'AsRef')):
                 return argv[0]
             # a function item the crate does not define (std function, method of a generic parameter): the same term a direct call gives
